@@ -190,6 +190,75 @@ class CvarMappingCase(Case):
         return props
 
 
+class RepeatCase(Case):
+    """One evaluator (hence one filter object) evaluates twice, with other values and another failure pattern the
+    second time: the second weight vector is the CVaR vector of the second evaluation alone."""
+
+    family = "cvar-objective/repeated"
+
+    def __init__(self, cid, R=3):
+        self.id, self.R = cid, R
+        self.cfg0 = make_config({
+            "variables": {"initial_values": [0.0]},
+            "realizations": {"weights": [1.0] * R, "realization_min_success": 0},
+            "objectives": {"weights": [1.0], "realization_filters": [0]},
+            "realization_filters": [{"method": "cvar-objective", "options": {"sort": [0], "percentile": 0.5}}],
+        })
+
+    def describe(self):
+        return f"cvar-objective, R={self.R}, two evaluations on one evaluator object"
+
+    def inputs(self, env):
+        R = self.R
+        out = {}
+        for e in (0, 1):
+            failed = [env.flag(f"failed{e}_{i}") for i in range(R)]
+            env.assume(Or(*[Not(x) for x in failed]))
+            f = env.reals(f"f{e}", (R, 1), lo=-BOUND, hi=BOUND)
+            for i in range(R):
+                f[i, 0] = SR(f[i, 0].v, failed[i].t)
+            out[e] = {"failed": failed, "f": f}
+        return out
+
+    def run(self, env, inp):
+        from ropt.ensemble_evaluator import EnsembleEvaluator
+        from ropt.evaluator import EvaluatorResult
+        from .common import plugin_manager
+        calls = []
+
+        def evaluator(v, ctx):
+            calls.append(1)
+            return EvaluatorResult(objectives=env.arr(inp[len(calls) - 1]["f"]))
+
+        ee = EnsembleEvaluator(clone_config(self.cfg0), None, evaluator, plugin_manager())
+        out = []
+        for e in (0, 1):
+            try:
+                (res,) = ee.calculate(env.const(np.array([0.5 * e])), compute_functions=True, compute_gradients=False)
+                out.append(res)
+            except Exception as exc:  # noqa: BLE001
+                if not too_few(exc):
+                    raise
+                out.append(None)
+        return out
+
+    def props(self, env, inp, oc):
+        if not oc.ok:
+            return [("no_internal_exception:" + type(oc.exc).__name__, SB(False))]
+        props = []
+        half = SR(Fraction(1, 2))
+        for e, res in enumerate(oc.value):
+            if res is None:
+                continue
+            rows = vals(res.realizations.objective_weights)
+            bad = [SR(inp[e]["f"][i, 0].v) for i in range(self.R)]
+            props += [(f"evaluation{e}.{n}", p) for n, p in cvar_spec(bad, inp[e]["failed"], half, list(rows[0]), self.R)]
+        return props
+
+    def observe(self, env, inp, oc):
+        return {}
+
+
 class RoundingCase(Case):
     """B: the helper on IEEE doubles.  n successful realizations with distinct concrete values."""
 
@@ -291,6 +360,7 @@ def build_cases(tier):
         add(RoundingCase, n, check_sum=(tier == "thorough" and n <= 12))
     add(CvarMappingCase)
     add(CvarMappingCase, kind="objective")
+    add(RepeatCase)
     add(RoundingCase, 5, 2)
     add(RoundingCase, 10, 1)
     return cases
